@@ -11,6 +11,7 @@ import (
 	"math"
 	"reflect"
 	"strings"
+	"sync/atomic"
 
 	"github.com/tobgu/qframe/function"
 )
@@ -105,6 +106,23 @@ var fnReg = map[string]FnEntry{
 	"min:float":     {-1, "float", "float", func(v []float64) float64 { r := v[0]; for _, x := range v { if x < r { r = x } }; return r }},
 	"max:float":     {-1, "float", "float", func(v []float64) float64 { r := v[0]; for _, x := range v { if x > r { r = x } }; return r }},
 	"majority:bool": {-1, "bool", "bool", func(v []bool) bool { t := 0; for _, x := range v { if x { t++ } }; return 2*t > len(v) }},
+}
+
+// Every registered function is wrapped so that calls made by the library are counted: C10 demands
+// that no user callback runs once Err is set. The wrapper has the exact Go type of the original, so
+// the library's type switches see no difference.
+var callCount int64
+
+func init() {
+	for name, e := range fnReg {
+		orig := reflect.ValueOf(e.Fn)
+		w := reflect.MakeFunc(orig.Type(), func(args []reflect.Value) []reflect.Value {
+			atomic.AddInt64(&callCount, 1)
+			return orig.Call(args)
+		})
+		e.Fn = w.Interface()
+		fnReg[name] = e
+	}
 }
 
 func gvCell(v GV) Cell {
